@@ -9,7 +9,7 @@ import (
 )
 
 const proxyRule = "rapid: size_limit at a drawn position among logging/headers (limits and number styles as in stub-terminal-rapid) in front of the REAL balancer with 1-2 raw scripted TCP backends; 1-6 (thorough 1-12) exchanges per lab (one kept-alive client connection): " +
-	"request without body (GET/HEAD/DELETE) or with a body of 0, L-1, L, L+1, 3L, 100 KiB in Content-Length or chunked framing; byte-exact backend response script: 15 statuses incl. 204/304/3xx/4xx/5xx (also empty), " +
+	"request (a quarter of them carrying an Upgrade: websocket / h2c offer, with and without Connection: Upgrade, that the backend does not take up) without body (GET/HEAD/DELETE) or with a body of 0, L-1, L, L+1, 3L, 100 KiB in Content-Length or chunked framing; byte-exact backend response script: 15 statuses incl. 204/304/3xx/4xx/5xx (also empty), " +
 	"Content-Length / chunked / close-delimited framing, body of 0, M-1, M, M+1, 3M, 100 KiB in <=4 backend writes; oracle R1 (every backend's recorded body), R2 (413, no request arrived and no backend connection accepted), R3, S1, " +
 	"S2 (only when the first backend write alone overflows, Content-Length framing, M <= 1024), U differential against a second lab without size_limit (response at the client and request at the backend); " +
 	"non-trivial = a body length within +-1 of its limit, a bodiless status, HEAD, or >= 2 backend writes"
@@ -33,6 +33,7 @@ func TestC14ProxyRapid(t *testing.T) {
 	sub.Floor("HEAD", 0.03)
 	sub.Floor("resp-chunked", 0.10)
 	sub.Floor("resp-close", 0.10)
+	sub.Floor("req-carries-upgrade", 0.15)
 	sub.Floor("plugin-wrapped-by-others", 0.15)
 	sub.Floor("plugin-wraps-others", 0.15)
 	lab.Assume("L2 with the real balancer: handler composition and server timeouts replicate cmd/helios/server.go (lab.BuildHandler, lab.NewSocketLab); raw TCP backends record the exact request and play byte-exact response scripts; HTTP/1.1 over loopback only; no interim 1xx, Expect: 100-continue, trailers or upgrades are generated for C14.")
